@@ -71,6 +71,7 @@ type c17 struct {
 	n     int
 	idx   int64
 	macNo int
+	rx    *rxBuf
 }
 
 func (t *c17) fresh() {
@@ -87,7 +88,10 @@ func (t *c17) fresh() {
 
 func (t *c17) frame(sp, dp uint16, payload []byte, mac refdec.MAC) (packet.Frame, []byte, error) {
 	b := refdec.Ether(t.e.HostMAC, mac, 0x0800, 0, refdec.IP4(refdec.IP4Hdr{TTL: 64, Proto: 17, Src: t.e.LANIP(rand.New(rand.NewSource(t.idx))), Dst: t.e.HostIP}, refdec.UDP(sp, dp, payload)))
-	f, err := t.s.Parse(b)
+	if t.rx == nil {
+		t.rx = newRx()
+	}
+	f, err := t.s.Parse(t.rx.load(b)) // delivered in the read loop's receive buffer, overwritten after the handler returns
 	return f, b, err
 }
 
@@ -171,7 +175,7 @@ func (t *c17) dnsCase(r *rand.Rand) {
 		return
 	}
 	var perr error
-	if pi := c.Guard("C08", cs, func() { _, perr = t.h.ProcessDNS(frame) }); pi != nil {
+	if pi := c.Guard("C08", cs, func() { _, perr = t.h.ProcessDNS(frame); t.rx.scribble() }); pi != nil {
 		return
 	}
 	if perr != nil {
@@ -294,7 +298,7 @@ func (t *c17) illFormed(r *rand.Rand) {
 		return
 	}
 	var perr error
-	if pi := c.Guard("C08", cs, func() { _, perr = t.h.ProcessDNS(frame) }); pi != nil {
+	if pi := c.Guard("C08", cs, func() { _, perr = t.h.ProcessDNS(frame); t.rx.scribble() }); pi != nil {
 		return
 	}
 	if perr == nil {
